@@ -450,3 +450,36 @@ impl<B: AsRef<[usize]> + BitLength, C: AsRef<[BlockCounters]>, I: AsRef<[usize]>
     for Select9<Rank9<B, C>, I>
 {
 }
+
+/// Verification hooks (add-only): assemble a structure from raw parts and
+/// inspect its inventories.
+#[cfg(feature = "sux_verif")]
+impl<R, I> Select9<R, I> {
+    /// # Safety
+    /// The parts must satisfy the invariants established by the constructors.
+    pub unsafe fn verif_from_raw_parts(
+        rank9: R,
+        inventory: I,
+        subinventory: I,
+        inventory_size: usize,
+        subinventory_size: usize,
+    ) -> Self {
+        Self {
+            rank9,
+            inventory,
+            subinventory,
+            inventory_size,
+            subinventory_size,
+        }
+    }
+
+    /// Returns (inventory, subinventory, inventory_size, subinventory_size).
+    pub fn verif_raw_parts(&self) -> (&I, &I, usize, usize) {
+        (
+            &self.inventory,
+            &self.subinventory,
+            self.inventory_size,
+            self.subinventory_size,
+        )
+    }
+}
